@@ -117,3 +117,10 @@ check(
     "Collaborators are stubs raising on their fault flag (real triggers such as NaN input are represented by them); estimators not listed are outside; rows 2-8.",
     "DESIGN.md 3.C02",
 )
+check(
+    "C03",
+    "bounded symbolic execution (SX) with self-composition: refit-vs-fresh-clone pairs compared inside one scenario; random draws symbolic with provenance tracking (global stream vs seeded RandomState), confirmed semantically by replay under different NumPy global seeds",
+    "Refit == fresh fit for PiecewiseRegressor (buckets, routing, training rows of each local model), PermutationReciprocalTransformer, CategoriesToIntegers (columns and values), ClassifierAfterKMeans, ExtendedFeatures, IntervalRegressor over pairs of training sets of different sizes / layouts / label sets / columns (every choice explored). Seed discipline: with an integer random_state ConstraintKMeans (fit with kmeans0 on/off, both strategies, balanced predict), PiecewiseClassifier and KMeansL1L2 make no draw from NumPy's global stream or an unseeded generator, for every outcome of the draws.",
+    "Provenance of draws is a sufficient condition for independence from the global seed; estimators whose randomness lives inside scikit-learn (TSNE, MLP, KMeans L2) are outside; stubs of C08/C13/C17 reused; small shapes.",
+    "DESIGN.md 3.C03",
+)
